@@ -1186,6 +1186,8 @@ def gen_cases(tier, rng):
     hb = dict(base, rules=list(H_RULES), rule_names=["HE", "HB", "HH"], seeds=["CC(=O)O", "CO", "CCBr", "O", "C=CC"], repeats=1, workers=[1, 2])
     slow += [dict(hb, explicit_h=False, implicit_temp=False), dict(hb, explicit_h=True, implicit_temp=False, workers=[2, 3]),
              dict(hb, explicit_h=False, implicit_temp=False, strategy=rng.choice(["comp", "all", "bt"]), repeats=2, workers=[3])]
+    # code path selected by an availability flag: syncrn.Chem None (RDKit import failed) - serial and parallel builds must still agree
+    slow.append(dict(base, rules=[E_, D_], rule_names=["E", "D"], seeds=["CCO", "CC(=O)O", "OCC"], repeats=2, no_rdkit=True, workers=[2]))
     # the slow cases (seconds each, they start process pools) are spread evenly through the list: the check's worker pool
     # hands out consecutive chunks, a block of them would be run by one worker one after the other
     out = []
